@@ -64,7 +64,10 @@ Exec(o, idx) ==
             /\ UNCHANGED <<names, inodes, nextIno>>
       [] o.op = "ftruncate" ->
             /\ inodes' = IF o.fd \in DOMAIN fds
-                         THEN [inodes EXCEPT ![fds[o.fd].ino] = SubSeq(@, 1, Min(o.len, Len(@)))] ELSE inodes
+                         THEN [inodes EXCEPT ![fds[o.fd].ino] =
+                                  IF o.len <= Len(@) THEN SubSeq(@, 1, o.len)
+                                  ELSE @ \o [i \in 1..(o.len - Len(@)) |-> <<-1, 0>>]]       \* extended with zero bytes
+                         ELSE inodes
             /\ UNCHANGED <<names, fds, nextIno>>
       [] o.op = "close" ->
             /\ fds' = IF o.fd \in DOMAIN fds THEN Drop(fds, o.fd) ELSE fds
@@ -100,7 +103,7 @@ Live == IF "live" \in DOMAIN names THEN inodes[names["live"]] ELSE <<>>
 Dir == [n \in DOMAIN names |-> inodes[names[n]]]
 SetToSeq(S) == CHOOSE q \in [1..Cardinality(S) -> S] : \A x \in S : \E i \in 1..Cardinality(S) : q[i] = x
 Runs(c) ==   \* run-length form of a content: <<src, first index, count>>
-    LET starts == {i \in 1..Len(c) : i = 1 \/ c[i][1] # c[i-1][1] \/ c[i][2] # c[i-1][2] + 1}
+    LET starts == {i \in 1..Len(c) : i = 1 \/ c[i][1] # c[i-1][1] \/ (c[i][1] # -1 /\ c[i][2] # c[i-1][2] + 1)}   \* zero bytes form one run
         RECURSIVE Build(_)
         Build(i) == IF i > Len(c) THEN <<>>
                     ELSE LET nxt == {s \in starts : s > i}
